@@ -21,6 +21,8 @@ fn main() {
         "C02" => main_for::<props::c02::P>(rest),
         "C03" => main_for::<props::c03::P>(rest),
         "C04" => main_for::<props::c04::P>(rest),
+        "C07" => main_for::<props::c07::P>(rest),
+        "C13" => main_for::<props::c13::P>(rest),
         _ => {
             eprintln!("unknown property {id}");
             2
